@@ -13,6 +13,8 @@ mod c12;
 mod c13;
 mod c14;
 mod c15;
+mod c16;
+mod c17;
 mod cmp;
 mod ev;
 mod fe;
@@ -101,6 +103,8 @@ fn main() {
         "C13" => c13::main(tier, replay),
         "C14" => c14::main(tier, replay),
         "C15" => c15::main(tier, replay),
+        "C16" => c16::main(tier, replay),
+        "C17" => c17::main(tier, replay),
         "SELFTEST" => selftest::main(),
         "DBGLATTICE" => { selftest::dbg_lattice(); 0 }
         "DBGHUFF" => { selftest::dbg_huff(); 0 }
